@@ -455,7 +455,9 @@ def run(prop, spec, tier, seed):
         "wall_s": round(time.time() - t0, 1),
         "violations": 1 if exit_code == 1 else 0,
     }
-    with open(os.path.join(VERIF, "evidence", "%s.json" % prop), "w") as f:
+    edir = os.path.join(WORK, "evidence") if (os.environ.get("VERIF_WORK") or os.environ.get("VERIF_REPO")) else os.path.join(VERIF, "evidence")
+    os.makedirs(edir, exist_ok=True)
+    with open(os.path.join(edir, "%s.json" % prop), "w") as f:
         json.dump(ev, f, indent=1)
     log("[%s] exit %d (%.0fs)" % (prop, exit_code, time.time() - t0))
     return exit_code
